@@ -10,6 +10,10 @@
                                                           server.handleMessage at honest r; cb = what the callback saw
      {"ev":"FRecv","h","sess","f","id","pl","sigs"}       h's client sent its BCastMessage to faulty f
      {"ev":"BEnd","h","sess","err"}                       Broadcast returned
+     {"ev":"SigCall","k","m","sess","req","id","pl"}      faulty `req` calls handleSigRequest at honest m while other
+     {"ev":"SigRet","k","ok"}                             calls (k = call id) are still inside it; the call returned.
+                                                          The critical section in between is a silent step (FLin): TLC
+                                                          infers the linearisation; dedupHash must be atomic.
    A payload is {"origin","body","ok"}, a signature {"by","sess","id","pl"} (by = 0: garbage bytes).
    Whether the client succeeds, and in which order it talks to its peers, is not demanded (the property is about
    what receivers deliver).
@@ -53,13 +57,19 @@ TMsg == /\ IsEvent("Msg") /\ Ev.sess \in Sessions /\ Ev.r \in Honest
 TFRecv == /\ IsEvent("FRecv") /\ Ev.sess \in Sessions /\ Ev.h \in Honest /\ client[Ev.h][Ev.sess].act
           /\ client[Ev.h][Ev.sess].id = Ev.id /\ client[Ev.h][Ev.sess].pl = Pl(Ev.pl)
           /\ FRecv(Ev.h, Ev.sess, Ev.f, SigList(Ev.sigs))
+TSigCall == /\ IsEvent("SigCall") /\ Ev.sess \in Sessions
+            /\ FCall(Ev.k, Ev.req, Ev.m, Ev.sess, Ev.id, Pl(Ev.pl))
+TSigRet == /\ IsEvent("SigRet")
+           /\ \E p \in pend : p.k = Ev.k /\ FRet(p) /\ Ev.ok = (p.st = "ok")
+TLin == \E p \in pend : FLin(p) /\ Silent
 TBEnd == /\ IsEvent("BEnd") /\ Ev.sess \in Sessions /\ BEnd(Ev.h, Ev.sess)
-TraceNext == TReset \/ TBStart \/ TSig \/ TFReply \/ TMsg \/ TFRecv \/ TBEnd
+TraceNext == TReset \/ TBStart \/ TSig \/ TFReply \/ TMsg \/ TFRecv \/ TBEnd \/ TSigCall \/ TSigRet \/ TLin
 TraceSpec == TraceInit /\ [][TraceNext]_tvars
 Mark == /\ CheckInv("AllSigned", AllSigned) /\ CheckInv("OnlyAllowed", OnlyAllowed)
         /\ CheckInv("AgreementRaw", AgreementRaw) /\ CheckInv("AgreementAccepted", AgreementAccepted)
         /\ CheckInv("RelayIsForeign", RelayIsForeign)
         /\ CheckInv("DedupFunctional", DedupFunctional) /\ CheckInv("DedupChecked", DedupChecked)
         /\ CheckInv("KnownGenuine", KnownGenuine) /\ CheckInv("HonestOrigin", HonestOrigin)
+        /\ CheckInv("PendOK", PendOK)
         /\ HWMark
 ====
